@@ -9,6 +9,7 @@ TABLE = {
     'd2': {'p': [1, 2, 3], 'q': [3, 3, 1]},
     'd3': {'p': [2, 2, 1], 'q': [1, 3, 2], 't': [11, 12, 13]},       # t: a text column (its keys equal no numeric key)
     'd4': {'p': [3, 1, 1], 'q': [2, 2, 3]},
+    'd5': {'p': [1, 3, 1], 'q': [3, 1, 1]},          # holds keys 1 and 3 only: its columns are stored narrower than those of d2
 }
 MENU = {
     'J1': ('d1', ('p',), 'd2', ('p',)), 'J2': ('d2', ('q',), 'd3', ('p',)), 'J3': ('d3', ('q',), 'd1', ('q',)),
@@ -16,8 +17,10 @@ MENU = {
     'J6': ('d3', ('p', 'q'), 'd4', ('p',)), 'J7': ('d4', ('q',), 'd1', ('p',)),
     'J8': ('d2', ('p', 'q'), 'd4', ('q', 'p')),
     'J9': ('d2', ('p',), 'd3', ('p', 't')),      # one key against a numeric and a text column
+    'J10': ('d5', ('p', 'q'), 'd2', ('p', 'q')),    # several against several, the side being masked stored narrower
 }
 STR = {1: 'a', 2: 'bb', 3: 'ccc'}
+STRT = {1: 'ab', 2: 'abcde', 3: 'x'}      # key 2 truncated to two characters would collide with key 1
 
 # storage variants: dataset -> (kind, dtype); the abstract key k is stored as a value of that type
 VARIANTS = {
@@ -25,8 +28,14 @@ VARIANTS = {
     'mixed-int': {'d1': ('int', 'int32'), 'd2': ('int', 'int64'), 'd3': ('int', 'int16'), 'd4': ('int', 'uint8')},
     'int-float': {'d1': ('int', 'int64'), 'd2': ('float', 'float64'), 'd3': ('float', 'float32'), 'd4': ('int', 'int32')},
     'float-half': {d: ('half', 'float64') for d in TABLE},
-    'str-widths': {'d1': ('str', '<U3'), 'd2': ('str', '<U8'), 'd3': ('str', '<U5'), 'd4': ('str', '<U12')},
+    'str-widths': {'d1': ('str', '<U3'), 'd2': ('str', '<U8'), 'd3': ('str', '<U5'), 'd4': ('str', '<U12'), 'd5': ('str', '<U4')},
+    # every column as wide as its own values need (numpy's choice): d5 gets <U2, d2 gets <U5
+    'str-natural': {d: ('strt', None) for d in ('d1', 'd2', 'd3', 'd4', 'd5')},
 }
+for _v in ('int64', 'float-half'):
+    VARIANTS[_v]['d5'] = VARIANTS[_v]['d1']
+VARIANTS['mixed-int']['d5'] = ('int', 'int8')
+VARIANTS['int-float']['d5'] = ('int', 'int16')
 
 
 def column(keys, kind, dtype):
@@ -38,6 +47,8 @@ def column(keys, kind, dtype):
         return np.array([k + 0.5 for k in keys], dtype=dtype)
     if kind == 'str':
         return np.array([STR[k] for k in keys], dtype=dtype)
+    if kind == 'strt':
+        return np.array([STRT[k] for k in keys])
     raise ValueError(kind)
 
 
